@@ -12,6 +12,18 @@ corresponding `py_*` function of coq/Num/PyNum.v, which carries CPython's dynami
   * `for x in it: body`             -> `py_for` (a fold_left) over a state tuple made of the
                                        variables the body assigns; `continue` ends an iteration
   * `xs.append(e)`, `d[k] = v`, `xs.insert(0, e)` on a *local name* -> functional update
+  * `d.get(k).append(e)` on a local dict of fresh, unshared lists -> d[k] := d.get(k) + [e]
+    (check_fresh_list_dict); any in-place mutation of a name that was bound to a value read out
+    of another variable/container is rejected (check_no_aliased_mutation)
+  * `{'a': x, 'b': y}` with distinct constant string keys -> PDict display
+  * calls of already translated functions whose parameter was abstracted (tokenizer ->
+    tokenizer_qval / tokenizer_tokenize) pass the caller's own p_qval / p_tokenize parameter
+    (known_sigs); `obj.attr` for a configured set of attributes of a parameter object becomes
+    the parameter obj_attr (attr_allow)
+  * `set()`, `s.add(x)`, `s.update(it)` on names bound only to `set()` -> py_set_* of the
+    prelude of Gen/IndexGen.v (allow_sets; sets are dicts with PNone values)
+  Methods are turned into functions beforehand by methods.py (self.X reads -> parameters,
+  self.X writes -> returned state).
 
 Anything else raises Unsupported, and the caller treats that as a broken tie (never silence).
 """
@@ -98,7 +110,7 @@ def assigned_names(stmts):
             elif isinstance(s, ast.Expr) and isinstance(s.value, ast.Call) and \
                     isinstance(s.value.func, ast.Attribute) and \
                     isinstance(s.value.func.value, ast.Name) and \
-                    s.value.func.attr in ('append', 'insert', 'sort'):
+                    s.value.func.attr in ('append', 'insert', 'sort', 'add', 'update'):
                 add(s.value.func.value.id)
     walk(stmts)
     return out
@@ -114,9 +126,36 @@ def has_escape(stmts):
 
 
 class FunTranslator:
-    def __init__(self, fn, known_funs=(), attr_params=None, method_params=None):
+    def __init__(self, fn, known_funs=(), attr_params=None, method_params=None,
+                 known_sigs=None, attr_allow=None, allow_sets=False):
         self.fn = fn
+        # sets (only where the generated file carries the py_set_* prelude): a name bound to
+        # `set()` -- and to nothing else -- supports .add(x) / .update(iterable)
+        self.allow_sets = allow_sets
+        self.set_names = set()
+        if allow_sets:
+            cand, other = set(), set()
+            for n in ast.walk(fn):
+                if isinstance(n, ast.Assign):
+                    isset = isinstance(n.value, ast.Call) and isinstance(n.value.func, ast.Name) and \
+                        n.value.func.id == 'set' and not n.value.args and not n.value.keywords
+                    for t in n.targets:
+                        for e in ast.walk(t):
+                            if isinstance(e, ast.Name):
+                                (cand if isset and e is t else other).add(e.id)
+                elif isinstance(n, (ast.AugAssign, ast.For)):
+                    for e in ast.walk(n.target):
+                        if isinstance(e, ast.Name):
+                            other.add(e.id)
+            self.set_names = cand - other - set(a.arg for a in fn.args.args)
         self.known_funs = set(known_funs)
+        # known_sigs: name -> (python parameter names, spec) where spec lists the Coq parameters
+        # in order as ('plain', p) | ('attr', p, a) | ('method', p, m)
+        self.known_sigs = dict(known_sigs or {})
+        # attr_allow: parameter -> attributes that may be read (they become parameters p_a);
+        # `.qval` is allowed on every parameter (as before)
+        self.attr_allow = dict(attr_allow or {})
+        self.abstracted_args = set()   # id() of Name nodes passed where the callee wants p.attr
         self.params = [a.arg for a in fn.args.args]
         if fn.args.vararg or fn.args.kwarg or fn.args.kwonlyargs:
             raise Unsupported('varargs')
@@ -141,8 +180,32 @@ class FunTranslator:
                 key = (n.value.id, n.attr)
                 if key in self.method_params:
                     continue
-                if n.attr in ('qval',) and key not in self.attr_params:
+                if (n.attr in ('qval',) or n.attr in self.attr_allow.get(n.value.id, ())) and \
+                        key not in self.attr_params:
                     self.attr_params.append(key)
+        orig = list(self.attr_params)
+        self.attr_params.sort(key=lambda pa: (0, self.params.index(pa[0]), list(self.attr_allow[pa[0]]).index(pa[1]))
+                              if pa[1] in self.attr_allow.get(pa[0], ()) else (1, orig.index(pa), 0))
+        # arguments handed to already translated functions that abstracted a parameter into
+        # p.attr / p.method: the argument must be one of OUR parameters, never reassigned
+        rebound = set(assigned_names(self.fn.body)) if self.known_sigs else set()
+        for n in ast.walk(self.fn):
+            if isinstance(n, ast.Call) and isinstance(n.func, ast.Name) and n.func.id in self.known_sigs:
+                pyparams, spec = self.known_sigs[n.func.id]
+                if n.keywords or len(n.args) != len(pyparams):
+                    raise Unsupported('call of %s: positional arguments only' % n.func.id)
+                for sp in spec:
+                    if sp[0] == 'plain':
+                        continue
+                    a = n.args[pyparams.index(sp[1])]
+                    if not (isinstance(a, ast.Name) and a.id in self.params and a.id not in rebound):
+                        raise Unsupported('argument %s of %s must be a parameter' % (sp[1], n.func.id))
+                    key = (a.id, sp[2])
+                    self.abstracted_args.add(id(a))
+                    if sp[0] == 'attr' and key not in self.attr_params:
+                        self.attr_params.append(key)
+                    if sp[0] == 'method' and key not in self.method_params:
+                        self.method_params.append(key)
 
     def v(self, name):
         return 'v_' + name
@@ -217,9 +280,18 @@ class FunTranslator:
             return '(PTuple [%s])' % '; '.join(self.expr(e) for e in n.elts)
         if isinstance(n, ast.Dict):
             if n.keys:
-                raise Unsupported('non-empty dict literal')
+                # display with distinct constant string keys (insertion order = textual order)
+                ks = []
+                for k in n.keys:
+                    if not (isinstance(k, ast.Constant) and isinstance(k.value, str)) or k.value in ks:
+                        raise Unsupported('dict literal key')
+                    ks.append(k.value)
+                return '(PDict [%s])' % '; '.join(
+                    'PTuple [(PStr %s); %s]' % (coq_str(k), self.expr(v)) for k, v in zip(ks, n.values))
             return '(PDict [])'
         if isinstance(n, ast.Subscript):
+            if isinstance(n.value, ast.Name) and n.value.id in self.set_names:
+                raise Unsupported('subscript of a set')
             if isinstance(n.slice, ast.Slice):
                 if n.slice.step is not None:
                     raise Unsupported('slice step')
@@ -244,6 +316,8 @@ class FunTranslator:
             f = n.func.id
             if f in self.bound:
                 raise Unsupported('call of local ' + f)
+            if f == 'set' and not args and self.allow_sets:
+                return '(PDict [])'
             if f in BUILTIN1 and len(args) == 1:
                 return '(%s %s)' % (BUILTIN1[f], self.expr(args[0]))
             if f == 'round' and len(args) == 2:
@@ -264,6 +338,18 @@ class FunTranslator:
                         isinstance(k.args[0], ast.Constant) and isinstance(k.args[0].value, int):
                     return '(py_sorted_item %d %s)' % (k.args[0].value, self.expr(args[0]))
                 raise Unsupported('sorted key')
+            if f in self.known_sigs:
+                pyparams, spec = self.known_sigs[f]
+                out = []
+                for sp in spec:
+                    a = args[pyparams.index(sp[1])]
+                    if sp[0] == 'plain':
+                        out.append(self.expr(a))
+                    else:
+                        if id(a) not in self.abstracted_args:
+                            raise Unsupported('argument %s of %s' % (sp[1], f))
+                        out.append(self.v(a.id + '_' + sp[2]))
+                return '(%s %s)' % (f, ' '.join(out))
             if f in self.known_funs:
                 return '(%s %s)' % (f, ' '.join(self.expr(a) for a in args))
             raise Unsupported('call ' + f)
@@ -272,6 +358,8 @@ class FunTranslator:
             if isinstance(n.func.value, ast.Name) and (n.func.value.id, m) in self.method_params:
                 return '(%s %s)' % (self.v(n.func.value.id + '_' + m),
                                     ' '.join(self.expr(a) for a in args))
+            if isinstance(n.func.value, ast.Name) and n.func.value.id in self.set_names:
+                raise Unsupported('method %s of a set' % m)
             obj = self.expr(n.func.value)
             if m == 'get' and len(args) == 1:
                 return '(py_dict_get2 %s %s)' % (obj, self.expr(args[0]))
@@ -345,11 +433,31 @@ class FunTranslator:
                     isinstance(c.args[0], ast.Constant) and c.args[0].value == 0:
                 return self.assign(tgt, '(py_insert0 %s %s)' % (self.v(name), self.expr(c.args[1])),
                                    cont, fail)
+            if c.func.attr in ('add', 'update') and len(c.args) == 1 and name in self.set_names:
+                return self.assign(tgt, '(py_set_%s %s %s)' % (c.func.attr, self.v(name), self.expr(c.args[0])),
+                                   cont, fail)
             if c.func.attr == 'sort' and not c.args:
                 return self.assign(tgt, '(py_sort %s)' % self.v(name), cont, fail)
             raise Unsupported('statement call ' + c.func.attr)
+        if isinstance(s, ast.Expr) and self.is_get_append(s.value):
+            # d.get(k).append(e) on a local dict whose values are fresh, unshared lists (checked
+            # by check_fresh_list_dict): the same as d[k] = d.get(k) + [e], k evaluated once.
+            # (None.append raises AttributeError in CPython; py_append gives TypeError.)
+            c = s.value
+            g = c.func.value
+            name = g.func.value.id
+            if name not in self.bound:
+                raise Unsupported('method on free name')
+            self.check_fresh_list_dict(name)
+            tgt = ast.Name(id=name, ctx=ast.Store())
+            ke = self.expr(g.args[0])
+            return ('(bindx %s (fun x_ => %s) (fun k_ =>\n %s))' % (
+                ke, fail('x_'),
+                self.assign(tgt, '(py_setitem %s k_ (py_append (py_dict_get2 %s k_) %s))' % (
+                    self.v(name), self.v(name), self.expr(c.args[0])), cont, fail)))
         if isinstance(s, ast.Expr) and isinstance(s.value, ast.Call) and \
-                isinstance(s.value.func, ast.Name) and s.value.func.id in self.known_funs:
+                isinstance(s.value.func, ast.Name) and \
+                (s.value.func.id in self.known_funs or s.value.func.id in self.known_sigs):
             # a call for its exception only (validate_*): bind to a dummy
             e = self.expr(s.value)
             return '(bindx %s (fun x_ => %s) (fun _ => %s))' % (e, fail('x_'), cont())
@@ -402,6 +510,65 @@ class FunTranslator:
                     % (pat, it, tup0, pat, body, tup0, fail('e_'), r))
         raise Unsupported('statement ' + type(s).__name__)
 
+    @staticmethod
+    def is_get_append(c):
+        return (isinstance(c, ast.Call) and isinstance(c.func, ast.Attribute) and
+                c.func.attr == 'append' and len(c.args) == 1 and not c.keywords and
+                isinstance(c.func.value, ast.Call) and not c.func.value.keywords and
+                isinstance(c.func.value.func, ast.Attribute) and
+                c.func.value.func.attr == 'get' and len(c.func.value.args) == 1 and
+                isinstance(c.func.value.func.value, ast.Name))
+
+    def check_fresh_list_dict(self, name):
+        """`name` is a local dict of lists that are never shared: every store is
+        `name = {}` / `name = None` / `name[k] = []`, and every read of `name` is
+        `name.get(k) is [not] None`, `name.get(k).append(e)`, `not name`, `len(name)`, or the
+        returned value (the function ends there)."""
+        if name in self.params:
+            raise Unsupported('get/append on parameter ' + name)
+        ok_loads = set()
+        for n in ast.walk(self.fn):
+            if isinstance(n, ast.Assign):
+                for t in n.targets:
+                    if isinstance(t, ast.Name) and t.id == name:
+                        v = n.value
+                        if not ((isinstance(v, ast.Dict) and not v.keys) or
+                                (isinstance(v, ast.Constant) and v.value is None)):
+                            raise Unsupported('store to list-dict ' + name)
+                    if isinstance(t, ast.Subscript) and isinstance(t.value, ast.Name) and \
+                            t.value.id == name:
+                        if not (isinstance(n.value, ast.List) and not n.value.elts) or len(n.targets) != 1:
+                            raise Unsupported('store into list-dict ' + name)
+                        ok_loads.add(id(t.value))
+            if isinstance(n, ast.Compare) and len(n.ops) == 1 and isinstance(n.ops[0], (ast.Is, ast.IsNot)) \
+                    and isinstance(n.comparators[0], ast.Constant) and n.comparators[0].value is None:
+                l = n.left
+                if isinstance(l, ast.Call) and isinstance(l.func, ast.Attribute) and l.func.attr == 'get' \
+                        and len(l.args) == 1 and isinstance(l.func.value, ast.Name) and l.func.value.id == name:
+                    ok_loads.add(id(l.func.value))
+            if isinstance(n, ast.Expr) and self.is_get_append(n.value) and \
+                    n.value.func.value.func.value.id == name:
+                ok_loads.add(id(n.value.func.value.func.value))
+            if isinstance(n, ast.UnaryOp) and isinstance(n.op, ast.Not) and \
+                    isinstance(n.operand, ast.Name) and n.operand.id == name:
+                ok_loads.add(id(n.operand))
+            if isinstance(n, ast.Call) and isinstance(n.func, ast.Name) and n.func.id == 'len' and \
+                    len(n.args) == 1 and isinstance(n.args[0], ast.Name) and n.args[0].id == name:
+                ok_loads.add(id(n.args[0]))
+        last = self.fn.body[-1]
+        if isinstance(last, ast.Return) and last.value is not None:
+            v = last.value
+            for e in ([v] + (list(v.elts) if isinstance(v, ast.Tuple) else [])):
+                if isinstance(e, ast.Name) and e.id == name:
+                    ok_loads.add(id(e))
+        for n in ast.walk(self.fn):
+            if isinstance(n, ast.Name) and n.id == name and isinstance(n.ctx, ast.Load) and \
+                    id(n) not in ok_loads:
+                raise Unsupported('list-dict %s escapes' % name)
+            if isinstance(n, (ast.AugAssign, ast.For)) and isinstance(n.target, ast.Name) and \
+                    n.target.id == name:
+                raise Unsupported('list-dict %s rebound' % name)
+
     def is_safe(self, n):
         """Syntactically cannot be an exception value: literals, empty displays, bound names."""
         if isinstance(n, ast.Constant):
@@ -411,7 +578,7 @@ class FunTranslator:
         if isinstance(n, ast.Dict):
             return not n.keys
         if isinstance(n, ast.Name):
-            return n.id in self.bound
+            return n.id in self.bound or n.id in GLOBAL_CONSTS
         return False
 
     def tuple_of(self, names, unbound_ok=False):
@@ -467,18 +634,65 @@ class FunTranslator:
                 self.bound.add(nme)
                 out_open += ' bindx (py_getitem t_ (PInt %d)) (fun x_ => %s) (fun %s =>\n' % (
                     i, f, self.v(nme))
-                closes = '))' + closes
+                closes = ')' + closes
             return out_open + cont() + closes
         if isinstance(target, ast.Subscript) and isinstance(target.value, ast.Name):
             name = target.value.id
             if name not in self.bound:
                 raise Unsupported('subscript-assign on free name')
+            if name in self.set_names:
+                raise Unsupported('subscript-assign on a set')
             e2 = '(py_setitem %s %s %s)' % (self.v(name), self.expr(target.slice), e)
             return self.assign(ast.Name(id=name, ctx=ast.Store()), e2, cont, fail)
         raise Unsupported('assign target')
 
+    def check_no_aliased_mutation(self):
+        """In-place mutation (x.append / x.insert / x.sort / x[k] = v / x.get(k).append) is
+        translated as a functional update of the NAME x.  That is only faithful if the object
+        is reachable through x alone: every assignment to such a name must bind a fresh object
+        (a display, None, or list()/sorted() of something), never a value read out of another
+        variable or container (`lst = d.get(k); lst.append(e)` would silently lose the update)."""
+        mutated = set()
+        for n in ast.walk(self.fn):
+            if isinstance(n, ast.Expr) and isinstance(n.value, ast.Call) and \
+                    isinstance(n.value.func, ast.Attribute):
+                r = n.value.func.value
+                if isinstance(r, ast.Name) and n.value.func.attr in ('append', 'insert', 'sort', 'add', 'update'):
+                    mutated.add(r.id)
+                if self.is_get_append(n.value):
+                    mutated.add(n.value.func.value.func.value.id)
+            if isinstance(n, (ast.Assign, ast.AugAssign)):
+                for t in (n.targets if isinstance(n, ast.Assign) else [n.target]):
+                    if isinstance(t, ast.Subscript) and isinstance(t.value, ast.Name):
+                        mutated.add(t.value.id)
+
+        def fresh(v):
+            if isinstance(v, (ast.List, ast.Dict, ast.Tuple)):
+                return True
+            if isinstance(v, ast.Constant):
+                return True
+            if isinstance(v, ast.Call) and isinstance(v.func, ast.Name) and \
+                    v.func.id in ('list', 'sorted', 'range', 'xrange', 'set'):
+                return True
+            return False
+        for n in ast.walk(self.fn):
+            if isinstance(n, ast.Assign):
+                for t in n.targets:
+                    if isinstance(t, ast.Name) and t.id in mutated and not fresh(n.value):
+                        raise Unsupported('in-place mutation of %s, which is bound to a shared value' % t.id)
+                    if isinstance(t, (ast.Tuple, ast.List)):
+                        for e in t.elts:
+                            if isinstance(e, ast.Name) and e.id in mutated:
+                                raise Unsupported('in-place mutation of unpacked name ' + e.id)
+            if isinstance(n, ast.For):
+                for e in ast.walk(n.target):
+                    if isinstance(e, ast.Name) and e.id in mutated:
+                        raise Unsupported('in-place mutation of loop variable ' + e.id)
+
     def translate(self):
+        self.check_no_aliased_mutation()
         self.bound = set(self.params)
+        body = self.block(self.fn.body, lambda: 'PNone', lambda e: e, None)
         plist = []
         for p in self.params:
             if any(a[0] == p for a in self.attr_params + self.method_params) and \
@@ -489,7 +703,12 @@ class FunTranslator:
             plist.append(('v_%s_%s' % (p, a), 'pyval'))
         for (p, m) in self.method_params:
             plist.append(('v_%s_%s' % (p, m), 'pyval -> pyval'))
-        body = self.block(self.fn.body, lambda: 'PNone', lambda e: e, None)
+        self.spec = []
+        for p in self.params:
+            if ('v_' + p, 'pyval') in plist:
+                self.spec.append(('plain', p))
+        self.spec += [('attr', p, a) for (p, a) in self.attr_params]
+        self.spec += [('method', p, m) for (p, m) in self.method_params]
         sig = ' '.join('(%s : %s)' % pt for pt in plist)
         return 'Definition %s %s : pyval :=\n%s.\n' % (self.fn.name, sig, body), [p for p, _ in plist]
 
@@ -504,7 +723,7 @@ class FunTranslator:
                     return
                 s.generic_visit(n)
             def visit_Name(s, n):
-                if n.id == p:
+                if n.id == p and id(n) not in self.abstracted_args:
                     s.plain = True
         v = V()
         for st in self.fn.body:
@@ -512,8 +731,9 @@ class FunTranslator:
         return v.plain
 
 
-def translate_functions(src, names, known=()):
-    """Translate the named top-level functions of module source `src` (in the given order)."""
+def translate_functions(src, names, known=(), specs=None):
+    """Translate the named top-level functions of module source `src` (in the given order).
+    If `specs` is a dict it receives name -> (python parameters, Coq parameter spec)."""
     tree = ast.parse(src)
     funs = {n.name: n for n in tree.body if isinstance(n, ast.FunctionDef)}
     out = []
@@ -522,8 +742,25 @@ def translate_functions(src, names, known=()):
     for name in names:
         if name not in funs:
             raise Unsupported('function %s not found' % name)
-        text, params = FunTranslator(funs[name], known_funs=known).translate()
+        tr = FunTranslator(funs[name], known_funs=known)
+        text, params = tr.translate()
         out.append(text)
         sigs[name] = params
+        if specs is not None:
+            specs[name] = ([a.arg for a in funs[name].args.args], tr.spec)
         known.add(name)
+    return '\n'.join(out), sigs
+
+
+def translate_fundefs(fundefs, known_sigs=None, attr_allow=None, allow_sets=False):
+    """Translate already extracted ast.FunctionDef nodes (methods turned into functions).
+    attr_allow: function name -> {parameter: [attributes]}."""
+    out, sigs = [], {}
+    for fn in fundefs:
+        fn = ast.parse(ast.unparse(fn)).body[0]       # normalise (fresh node identities)
+        tr = FunTranslator(fn, known_sigs=known_sigs, attr_allow=(attr_allow or {}).get(fn.name),
+                           allow_sets=allow_sets)
+        text, params = tr.translate()
+        out.append(text)
+        sigs[fn.name] = params
     return '\n'.join(out), sigs
